@@ -470,7 +470,10 @@ func Stat(name string) (os.FileInfo, error) {
 func dirExists(name string) bool {
 	name = filepath.Clean(name)
 	switch name {
-	case "/", "/sim", "/sim/tmp", ".":
+	case "/", "/sim", "/sim/tmp", "/sim/home", "/sim/cwd", ".":
+		return true
+	}
+	if madeDirs[name] {
 		return true
 	}
 	prefix := name + "/"
